@@ -34,6 +34,7 @@ type pconn struct {
 	hsGate chan struct{}
 	taken  atomic.Bool
 	self   atomic.Bool // the peer itself closed this connection
+	stall  atomic.Bool // never answer the TLS handshake
 }
 
 type h1peer struct {
@@ -175,6 +176,16 @@ func (pc *pconn) takeover(p *h1peer) {
 		return
 	}
 	defer close(pc.gone)
+	if pc.br == nil && pc.stall.Load() {
+		// the handshake is never answered: just watch the connection end
+		pc.c.SetReadDeadline(time.Time{})
+		buf := make([]byte, 4096)
+		for {
+			if _, err := pc.c.Read(buf); err != nil {
+				return
+			}
+		}
+	}
 	if pc.br == nil {
 		pc.openHS()
 		if err := pc.start(p); err != nil {
@@ -300,6 +311,7 @@ type h1spec struct {
 	Auto       bool   `json:"auto,omitempty"`        // auto-read mode: the call returns after the body
 	Expect     bool   `json:"expect,omitempty"`      // upload with Expect: 100-continue, ExpectContinueTimeout 1 h: the body waits for the peer's 100
 	Queued     bool   `json:"queued,omitempty"`      // MaxConnsPerHost = 1 and the only connection is busy: the request waits in getConn's queue
+	HSTimeout  bool   `json:"hs_timeout,omitempty"`  // TLS: the peer never answers the ClientHello; TLSHandshakeTimeout (300 ms) is what ends the dial; MaxConnsPerHost = 1
 }
 
 type obs struct {
@@ -316,6 +328,7 @@ type obs struct {
 
 	Call          string   `json:"call"`
 	CallErr       string   `json:"call_err,omitempty"`
+	CallTimeout   bool     `json:"call_err_is_timeout,omitempty"`
 	Body          string   `json:"body"`
 	BodyErr       string   `json:"body_err,omitempty"`
 	Returned      bool     `json:"returned"`
@@ -435,8 +448,15 @@ func h1steps(sp h1spec) []step {
 		if sp.TLS {
 			st = append(st, step{"tcp connected, tls handshake stalled", nil, func(r *h1run) error {
 				r.gate.open()
-				return r.acceptConn()
+				if err := r.acceptConn(); err != nil {
+					return err
+				}
+				r.pc.stall.Store(r.spec.HSTimeout)
+				return nil
 			}})
+			if sp.HSTimeout {
+				return
+			}
 			st = append(st, step{"handshake done, request head read", append([]string{"XDialDone true"}, wrote...), func(r *h1run) error {
 				r.pc.openHS()
 				if err := r.pc.start(r.peer); err != nil {
@@ -482,6 +502,9 @@ func h1steps(sp h1spec) []step {
 		}
 	} else {
 		fresh()
+	}
+	if sp.HSTimeout {
+		return st
 	}
 	if sp.Upload {
 		st = append(st, step{"peer read 64 KiB of the request body", []string{"XWroteSome"}, func(r *h1run) error {
@@ -604,6 +627,10 @@ func runH1(sp h1spec, kind string, pos int, racy bool, quick bool) (o obs) {
 	c := req.C().DisableAutoDecode().EnableForceHTTP1().SetDial(dl.dial)
 	if sp.TLS {
 		c.EnableInsecureSkipVerify()
+	}
+	if sp.HSTimeout {
+		c.SetTLSHandshakeTimeout(2 * timerDelay)
+		c.GetTransport().SetMaxConnsPerHost(1)
 	}
 	c.SetTimeout(0)
 	if kind == "client-timeout" {
@@ -774,7 +801,7 @@ func runH1(sp h1spec, kind string, pos int, racy bool, quick bool) (o obs) {
 		// model comparison uses the union over all earlier positions
 		o.Harness = ""
 	}
-	o.Complete = pos == len(steps) && !racy
+	o.Complete = pos == len(steps) && !racy && !sp.HSTimeout
 	t0 := time.Now()
 	if racy {
 		// the injection and the last step happen at the same time
@@ -813,6 +840,7 @@ func runH1(sp h1spec, kind string, pos int, racy bool, quick bool) (o obs) {
 	}
 	if cl.err != nil {
 		o.Call, o.CallErr = classify(cl.err), trunc(cl.err.Error(), 200)
+		o.CallTimeout = isTimeout(cl.err)
 	} else {
 		o.Call = "resp"
 		switch {
@@ -858,7 +886,11 @@ func runH1(sp h1spec, kind string, pos int, racy bool, quick bool) (o obs) {
 	}
 	o.Idle = idleCount(c)
 	if int(dl.entered.Load()) > dialSteps {
-		o.Post = append(o.Post, "XDialDone true")
+		if sp.HSTimeout && r.pc != nil && r.pc.stall.Load() {
+			o.Post = append(o.Post, "XDialDone false") // the handshake timeout ended the dial
+		} else {
+			o.Post = append(o.Post, "XDialDone true")
+		}
 	}
 	if r.pc != nil && !r.pc.self.Load() {
 		if o.Idle == 0 {
